@@ -80,6 +80,11 @@ RemoveN(c) == st[c] # "none" /\ LET s1 == [st EXCEPT ![c] = "none"] c1 == Rec(cn
                 \E r \in Perms(Group(s1, CurState(c1))) : Publish(s1, c1, r)
 TransN(c, s) == st[c] # "none" /\ LET s1 == [st EXCEPT ![c] = s] c1 == Rec(cnt, st[c], s) IN
                 \E r \in Perms(Group(s1, CurState(c1))) : Publish(s1, c1, r)
+\* the child of target c is replaced (weighted_target: same target name, other child policy type): the old
+\* child's contribution vanishes and the new child starts in CONNECTING
+ReplCnt(c) == Rec(IF Mutant = 4 THEN cnt ELSE Rec(cnt, st[c], "SHUTDOWN"), "SHUTDOWN", "CONNECTING")
+ReplN(c) == st[c] # "none" /\ LET s1 == [st EXCEPT ![c] = "CONNECTING"] c1 == ReplCnt(c) IN
+                \E r \in Perms(Group(s1, CurState(c1))) : Publish(s1, c1, r)
 \* deterministic variants (canonical picker order) used by the trace specification
 RECURSIVE Canon(_)
 Canon(S) == IF S = {} THEN <<>> ELSE LET m == CHOOSE x \in S : \A y \in S : x <= y IN <<m>> \o Canon(S \ {m})
@@ -88,6 +93,7 @@ PublishC(s, c1) == Publish(s, c1, Canon(Group(s, CurState(c1))))
 AddC(c, s) == st[c] = "none" /\ PublishC([st EXCEPT ![c] = s], Rec(cnt, "SHUTDOWN", s))
 RemoveC(c) == st[c] # "none" /\ PublishC([st EXCEPT ![c] = "none"], Rec(cnt, st[c], "SHUTDOWN"))
 TransC(c, s) == st[c] # "none" /\ PublishC([st EXCEPT ![c] = s], Rec(cnt, st[c], s))
+ReplC(c) == st[c] # "none" /\ PublishC([st EXCEPT ![c] = "CONNECTING"], ReplCnt(c))
 \* a resolver update of endpointsharding: several children added / removed, one publish
 SetAllC(s) == PublishC(s, Recount(s))
 \* pickerWithChildStates.Pick
